@@ -2,6 +2,7 @@ package quic
 
 import (
 	"context"
+	"slices"
 
 	"github.com/refraction-networking/uquic/internal/ackhandler"
 	"github.com/refraction-networking/uquic/internal/handshake"
@@ -104,11 +105,16 @@ var newUClientConnection = func(
 
 	var params *wire.TransportParameters
 
-	if uSpec.ClientHelloSpec != nil {
+	// [UQUIC] Work on a per-connection copy of the ClientHelloSpec: the rewriting below and
+	// uTLS' ApplyPreset store per-connection state in some extensions, which must not leak
+	// into the next dial made with the same QUICSpec value.
+	clientHelloSpec := cloneClientHelloSpec(uSpec.ClientHelloSpec)
+
+	if clientHelloSpec != nil {
 		// iterate over all Extensions to set the TransportParameters
 		var tpSet bool
 	FOR_EACH_TLS_EXTENSION:
-		for _, ext := range uSpec.ClientHelloSpec.Extensions {
+		for _, ext := range clientHelloSpec.Extensions {
 			switch ext := ext.(type) {
 			case *tls.QUICTransportParametersExtension:
 				params = &wire.TransportParameters{
@@ -181,7 +187,7 @@ var newUClientConnection = func(
 		s.qlogger,
 		logger,
 		s.version,
-		uSpec.ClientHelloSpec,
+		clientHelloSpec,
 	)
 	s.cryptoStreamHandler = cs
 	s.cryptoStreamManager = newCryptoStreamManager(s.initialStream, s.handshakeStream, oneRTTStream)
@@ -201,4 +207,32 @@ var newUClientConnection = func(
 		}
 	}
 	return &wrappedConn{Conn: s}
+}
+
+// cloneClientHelloSpec returns a copy of chs for use by a single connection. The
+// extensions that are rewritten per connection get their own copy: uTLS' ApplyPreset
+// stores the generated key shares in KeyShareExtension (and keeps the matching private
+// keys only in the connection that generated them), QUICTransportParametersExtension
+// caches its encoding on first use, and PopulateFromUQUIC writes the connection's source
+// connection ID into an empty InitialSourceConnectionID parameter. Sharing those across
+// dials makes every dial after the first one fail (stale key share without private key,
+// initial_source_connection_id of the previous connection). All other extensions are
+// shared with chs.
+func cloneClientHelloSpec(chs *tls.ClientHelloSpec) *tls.ClientHelloSpec {
+	if chs == nil {
+		return nil
+	}
+	c := *chs
+	c.Extensions = make([]tls.TLSExtension, len(chs.Extensions))
+	for i, ext := range chs.Extensions {
+		switch ext := ext.(type) {
+		case *tls.KeyShareExtension:
+			c.Extensions[i] = &tls.KeyShareExtension{KeyShares: slices.Clone(ext.KeyShares)}
+		case *tls.QUICTransportParametersExtension:
+			c.Extensions[i] = &tls.QUICTransportParametersExtension{TransportParameters: slices.Clone(ext.TransportParameters)}
+		default:
+			c.Extensions[i] = ext
+		}
+	}
+	return &c
 }
